@@ -52,8 +52,10 @@ func (c10) Gen(rng *simrt.Rand, seed uint64, tier string) *Case {
 				gap = 0
 			}
 			nts := last + gap
-			// keep the global sequence roughly monotone: only move forward in time
-			if nts >= int64(ts)-sp.OOO/u {
+			// keep the global sequence roughly monotone: only move forward in time, and stay far
+			// below the future guard (now + 24h): the guard is evaluated at ingestion, which the
+			// ledger cannot observe
+			if nts >= int64(ts)-sp.OOO/u && nts < fakeEpochMS*int64(time.Millisecond)/u+int64(10*time.Hour)/u {
 				op.Row["ts"] = int(nts)
 				ts = int(nts)
 			}
